@@ -21,6 +21,20 @@ TMPDIR = os.environ.get('PYVC_TMP') or tempfile.gettempdir()
 
 STATS = {'inproc': 0, 'cvc5': 0, 'z3bin': 0, 'time': 0.0}
 
+# Budgets of the solver sub-processes are CPU time (RLIMIT_CPU), not wall-clock time: on a loaded machine a query gets
+# the same amount of work done, it just takes longer, so a verdict does not flip to `unknown` because other checks run.
+# The wall-clock limit is a multiple of the budget and only guards against a stuck process.
+WALL_FACTOR = float(os.environ.get('PYVC_WALL_FACTOR', '8'))
+
+
+def _cpu_limit(seconds):
+    import resource
+    s = max(1, int(seconds + 0.999))
+
+    def setlimit():
+        resource.setrlimit(resource.RLIMIT_CPU, (s, s + 2))
+    return setlimit
+
 
 def smt2_text(assertions, values=None, produce_models=False):
     s = z3.Solver()
@@ -45,14 +59,16 @@ def _run(cmd, txt, hard_s):
         with os.fdopen(fd, 'w') as f:
             f.write(txt)
         try:
-            p = subprocess.run(cmd + [fn], capture_output=True, text=True, timeout=hard_s)
+            p = subprocess.run(cmd + [fn], capture_output=True, text=True, timeout=hard_s * WALL_FACTOR,
+                               preexec_fn=_cpu_limit(max(1, hard_s - 4)))
         except subprocess.TimeoutExpired:
             return 'timeout', ''
         out = (p.stdout or '').strip()
         first = out.splitlines()[0].strip() if out else ''
         if first in ('sat', 'unsat', 'unknown'):
             return first, out[len(first):]
-        if first == 'timeout' or 'timeout' in out[:200] or 'interrupted' in (out + (p.stderr or ''))[:300]:
+        if first == 'timeout' or 'timeout' in out[:200] or 'interrupted' in (out + (p.stderr or ''))[:300] \
+                or p.returncode in (-24, -9):          # SIGXCPU / SIGKILL: the CPU budget is used up
             return 'timeout', ''
         return 'error', (out + (p.stderr or ''))[:400]
     finally:
@@ -64,13 +80,13 @@ def _run(cmd, txt, hard_s):
 
 def run_cvc5(txt, ms):
     STATS['cvc5'] += 1
-    return _run([CVC5, '--strings-exp', '-q', '--tlimit=%d' % ms], txt, ms / 1000.0 + 5)
+    return _run([CVC5, '--strings-exp', '-q', '--tlimit=%d' % int(ms * WALL_FACTOR)], txt, ms / 1000.0 + 5)
 
 
 def run_z3bin(txt, ms):
     STATS['z3bin'] += 1
     # cvc5-style logic line is accepted by z3
-    return _run([Z3BIN, '-T:%d' % max(1, int(ms / 1000.0 + 0.999))], txt, ms / 1000.0 + 5)
+    return _run([Z3BIN, '-T:%d' % max(1, int(ms * WALL_FACTOR / 1000.0 + 0.999))], txt, ms / 1000.0 + 5)
 
 
 def portfolio(txt, ms):
@@ -82,11 +98,12 @@ def portfolio(txt, ms):
             f.write(txt)
         STATS['cvc5'] += 1
         STATS['z3bin'] += 1
-        cmds = [('cvc5', [CVC5, '--strings-exp', '-q', '--tlimit=%d' % ms, fn]),
-                ('z3', [Z3BIN, '-T:%d' % max(1, int(ms / 1000.0 + 0.999)), fn])]
+        cmds = [('cvc5', [CVC5, '--strings-exp', '-q', '--tlimit=%d' % int(ms * WALL_FACTOR), fn]),
+                ('z3', [Z3BIN, '-T:%d' % max(1, int(ms * WALL_FACTOR / 1000.0 + 0.999)), fn])]
         for name, cmd in cmds:
-            procs.append((name, subprocess.Popen(cmd, stdout=subprocess.PIPE, stderr=subprocess.PIPE, text=True)))
-        deadline = time.time() + ms / 1000.0 + 5
+            procs.append((name, subprocess.Popen(cmd, stdout=subprocess.PIPE, stderr=subprocess.PIPE, text=True,
+                                                 preexec_fn=_cpu_limit(ms / 1000.0 + 1))))
+        deadline = time.time() + (ms / 1000.0 + 5) * WALL_FACTOR
         done = {}
         while time.time() < deadline and len(done) < len(procs):
             for name, p in procs:
